@@ -3,7 +3,6 @@ package spec
 import (
 	"fmt"
 	"go/ast"
-	"go/token"
 	"regexp"
 	"sort"
 	"strings"
@@ -115,7 +114,7 @@ func runC17(r *an.Run) {
 				}
 				cs := "$recv.channelState."
 				bal := f.Calls(an.CalleeIs(lw+"CoopCloseBalance"), false)
-				if need(o, f, "CoopCloseBalance", bal, 1) {
+				if needExactly(o, f, "CoopCloseBalance", bal, 1) {
 					a := f.ArgCanon(bal[0])
 					want := []string{cs + "ChanType", cs + "IsInitiator", fee, cs + "LocalCommitment.LocalBalance.ToSatoshis()", cs + "LocalCommitment.RemoteBalance.ToSatoshis()", cs + "LocalCommitment.CommitFee"}
 					o.Site("%s: CoopCloseBalance%v", name, a)
@@ -129,7 +128,7 @@ func runC17(r *an.Run) {
 					}
 				}
 				tx := f.Calls(an.CalleeIs(lw+"CreateCooperativeCloseTx"), false)
-				if need(o, f, "CreateCooperativeCloseTx", tx, 1) {
+				if needExactly(o, f, "CreateCooperativeCloseTx", tx, 1) {
 					c := tx[0].Node.(*ast.CallExpr)
 					a := f.ArgCanon(tx[0])
 					o.Site("%s: CreateCooperativeCloseTx(%s, %s, %s, %s, %s, %s, %s)", name, a[0], a[1], a[2], an.Text(c.Args[3]), an.Text(c.Args[4]), a[5], a[6])
@@ -249,78 +248,10 @@ func runC17(r *an.Run) {
 		})
 
 	r.Obl("final-balances", "TABLE",
-		"CoopCloseBalance: the opener is credited commitFee (+ 2*AnchorSize for anchor channels) - ours if we are the initiator, theirs otherwise; the closing fee is subtracted from the payer's balance, the payer defaulting to the initiator; a negative balance is an error; the results are returned as (ours, theirs)",
+		"CoopCloseBalance: the opener is credited commitFee (+ 2*AnchorSize for anchor channels) - ours if we are the initiator, theirs otherwise; the closing fee is subtracted from the payer's balance, the payer defaulting to the initiator; a negative balance is an error; the results are returned as (ours, theirs); the inputs identified by position (channel type, initiator flag, closing fee, commit fee, custom payer) are never overwritten, the two balances are written by nothing but these four updates, the credit by nothing but its definition and the anchor increase, and the non-negative tests see the final balances",
 		"crediting the non-opener or charging the non-payer shifts money between the parties on every cooperative close", 9,
 		func(o *an.Obl) {
-			f := p.Func(lw + "CoopCloseBalance")
-			cnt := 0
-			for _, v := range f.Graph().V {
-				as, ok := v.Node.(*ast.AssignStmt)
-				if !ok || len(as.Lhs) != 1 {
-					continue
-				}
-				s := an.Site{Fn: f, V: v, Node: as}
-				l, rr := f.Canon(as.Lhs[0]), ""
-				if len(as.Rhs) == 1 {
-					rr = an.Text(as.Rhs[0])
-				}
-				switch {
-				case an.Text(as.Lhs[0]) == "initiatorDelta" && as.Tok == token.DEFINE:
-					cnt++
-					if f.Canon(as.Rhs[0]) != "$p5" {
-						o.FailAt(f.ID+"#delta", s.Where(), "the opener's credit starts from %s, expected the commit fee", rr)
-					}
-				case an.Text(as.Lhs[0]) == "initiatorDelta" && as.Tok == token.ADD_ASSIGN:
-					cnt++
-					guarded(o, f, s, an.Truth(an.CallNamed("HasAnchors", an.Param(0)), true, "chanType.HasAnchors()"))
-					onlyGuards(o, f, s, []string{`^chanType\.HasAnchors\(\)$`}, "anchor credit")
-					if rr != "2 * AnchorSize" {
-						o.FailAt(f.ID+"#anchors", s.Where(), "the anchor credit is %s", rr)
-					}
-				case (l == "$p3" || l == "$p4") && as.Tok == token.ADD_ASSIGN:
-					cnt++
-					guarded(o, f, s, an.Truth(an.Param(1), l == "$p3", "isInitiator == "+fmt.Sprint(l == "$p3")))
-					onlyGuards(o, f, s, []string{`^isInitiator$`, `^!\(isInitiator\)$`}, "opener credit")
-					if rr != "initiatorDelta" {
-						o.FailAt(f.ID+"#credit", s.Where(), "the opener is credited %s", rr)
-					}
-				case (l == "$p3" || l == "$p4") && as.Tok == token.SUB_ASSIGN:
-					cnt++
-					party := map[string]string{"$p3": "Local", "$p4": "Remote"}[l]
-					guarded(o, f, s, an.Cmp(an.Any(), an.EQ, an.PkgVar("lntypes", party), "payer == lntypes."+party))
-					onlyGuards(o, f, s, []string{`^!?\(?payer == lntypes\.(Local|Remote)\)?$`}, "closing fee charge")
-					if f.Canon(as.Rhs[0]) != "$p2" {
-						o.FailAt(f.ID+"#charge", s.Where(), "the payer is charged %s, expected the closing fee", rr)
-					}
-				case l == "$p3" || l == "$p4":
-					o.FailAt(f.ID+"#balance-write", s.Where(), "unexpected balance update %s", an.Text(as))
-				}
-			}
-			if cnt != 6 {
-				o.FailAt(f.ID+"#updates", f.Where(f.Body.Pos()), "expected 6 balance computation steps, found %d", cnt)
-			}
-			// default payer
-			for _, lf := range f.Lits {
-				for _, s := range lf.Returns() {
-					c := an.Text(s.Node.(*ast.ReturnStmt).Results[0])
-					init, _ := lf.Guarded(s, an.Truth(an.TextIs("isInitiator"), true, ""))
-					o.Site("default payer (initiator=%v) -> %s", init, c)
-					if (init && c != "lntypes.Local") || (!init && c != "lntypes.Remote") {
-						o.FailAt(f.ID+"#default-payer", s.Where(), "the default fee payer for isInitiator=%v is %s", init, c)
-					}
-				}
-			}
-			for _, s := range f.Returns() {
-				rs := s.Node.(*ast.ReturnStmt)
-				if !an.IsNilIdent(f.Info(), rs.Results[2]) {
-					continue
-				}
-				guarded(o, f, s, an.CmpX(an.Param(3), an.GE, an.IntConst(0), "ourBalance >= 0"))
-				guarded(o, f, s, an.CmpX(an.Param(4), an.GE, an.IntConst(0), "theirBalance >= 0"))
-				if f.Canon(rs.Results[0]) != "$p3" || f.Canon(rs.Results[1]) != "$p4" {
-					o.FailAt(f.ID+"#result-order", s.Where(), "the balances are returned as (%s, %s)", an.Text(rs.Results[0]), an.Text(rs.Results[1]))
-				}
-			}
+			c17FinalBalances(o, p.Func(lw+"CoopCloseBalance"))
 		})
 
 	r.Obl("completion-only-after-script-verification", "PATH",
@@ -336,7 +267,7 @@ func runC17(r *an.Run) {
 				mustPass(o, f, c, f.Calls(an.CalleeNamed(c), false), an.OkErrNil, targets)
 			}
 			eng := f.Calls(an.CalleeNamed("NewEngine"), false)
-			if len(eng) == 1 {
+			if needExactly(o, f, "NewEngine", eng, 1) {
 				a := f.ArgCanon(eng[0])
 				o.Site("NewEngine script=%s value=%s", a[0], a[6])
 				if a[0] != "$recv.signDesc.Output.PkScript" || a[6] != "$recv.signDesc.Output.Value" {
@@ -347,7 +278,7 @@ func runC17(r *an.Run) {
 				}
 			}
 			ms := f.Calls(an.CalleeNamed("SpendMultiSig"), false)
-			if need(o, f, "SpendMultiSig", ms, 1) {
+			if needExactly(o, f, "SpendMultiSig", ms, 1) {
 				a := f.ArgCanon(ms[0])
 				o.Site("SpendMultiSig%v", a)
 				if !strings.Contains(a[1], "LocalChanCfg.MultiSigKey") || a[2] != "$p0" || !strings.Contains(a[3], "RemoteChanCfg.MultiSigKey") || a[4] != "$p1" {
@@ -450,7 +381,7 @@ func runC17(r *an.Run) {
 			// the call site
 			g := p.Func(cc + "ChanCloser.ReceiveClosingSigned")
 			cs := g.Calls(an.CalleeIs(cc+"calcCompromiseFee"), false)
-			if need(o, g, "calcCompromiseFee", cs, 1) {
+			if needExactly(o, g, "calcCompromiseFee", cs, 1) {
 				a := g.ArgCanon(cs[0])
 				o.Site("calcCompromiseFee%v", a)
 				if a[1] != "$recv.idealFeeSat" || a[2] != "$recv.lastFeeProposal" || a[3] != "$p0.FeeSatoshis" {
@@ -466,7 +397,7 @@ func runC17(r *an.Run) {
 				}
 			}
 			comp := g.Calls(an.CalleeNamed("CompleteCooperativeClose"), false)
-			if need(o, g, "CompleteCooperativeClose", comp, 1) {
+			if needExactly(o, g, "CompleteCooperativeClose", comp, 1) {
 				a := g.ArgCanon(comp[0])
 				o.Site("CompleteCooperativeClose%v", a)
 				if a[2] != "$recv.localDeliveryScript" || a[3] != "$recv.remoteDeliveryScript" || a[4] != "$p0.FeeSatoshis" {
@@ -480,7 +411,7 @@ func runC17(r *an.Run) {
 			}
 			ps := p.Func(cc + "ChanCloser.proposeCloseSigned")
 			prop := ps.Calls(an.CalleeNamed("CreateCloseProposal"), false)
-			if need(o, ps, "CreateCloseProposal", prop, 1) {
+			if needExactly(o, ps, "CreateCloseProposal", prop, 1) {
 				a := ps.ArgCanon(prop[0])
 				if a[0] != "$p0" || a[1] != "$recv.localDeliveryScript" || a[2] != "$recv.remoteDeliveryScript" {
 					o.FailAt(ps.ID+"#proposal-args", prop[0].Where(), "the proposal is created with (%s, %s, %s)", a[0], a[1], a[2])
@@ -503,5 +434,5 @@ func runC17(r *an.Run) {
 			}
 		})
 
-	rbfCloseOptions(r)
+	c17RbfCloseOptions(r)
 }
